@@ -328,9 +328,12 @@ def main(tier, seed):
                 continue
             exp, both = girgen.both_dimensions(exp, got)
             exp, got = sort_attrs(exp), sort_attrs(got)
-            if both:
+            if [h_ for h_ in both if h_['finding'] == 'K1']:
                 ck.failing_input('an array with a length parameter and a fixed size: the API reports no fixed size', dict(gir=open(gir).read()),
-                                 detail=both[:3], fid='C09-K1-array-with-length-and-fixed-size')
+                                 detail=[h_ for h_ in both if h_['finding'] == 'K1'][:3], fid='C09-K1-array-with-length-and-fixed-size')
+            if [h_ for h_ in both if h_['finding'] == 'K2']:
+                ck.failing_input('an array with a fixed size of 65536 or more: the API reports the size modulo 65536', dict(gir=open(gir).read()),
+                                 detail=[h_ for h_ in both if h_['finding'] == 'K2'][:3], fid='C09-K2-fixed-size-beyond-16-bits')
             d = first_diff(exp, got)
             if d:
                 ck.failing_input('API reports something else than the compiled GIR says', dict(gir=open(gir).read()),
@@ -351,6 +354,7 @@ def main(tier, seed):
             a, bb = sorted(red_model(ns)), sorted(red_xml(root))
             a, both2 = girgen.both_dimensions(a, bb)
             a = sorted(a)
+            both2 = [h_ for h_ in both2 if h_['finding'] == 'K1']
             if both2 and not both:
                 ck.failing_input('an array with a length parameter and a fixed size: g-ir-generate writes no fixed size', dict(gir=open(gir).read()),
                                  detail=both2[:3], fid='C09-K1-array-with-length-and-fixed-size')
